@@ -29,7 +29,7 @@ class C04(LBCheck):
           'non-trivial = a dispatch or removal judged; distinct as C03')
   REQUIRED_CLASSES = ('heap', 'aperture', 'removed:idle', 'removed:loaded', 'removed:down', 'removed:down+loaded',
                       'rejoin-while-draining', 'complete:reply', 'complete:error', 'complete:timeout',
-                      'complete:fault', 'late-reply-after-timeout', 'contraction', 'full-stack')
+                      'complete:fault', 'late-reply-after-timeout', 'contraction', 'full-stack', 'close-fails-inflight')
   ASSUMPTIONS = ('white-box read of node.load, as named by the property (observe_at)',)
 
   def run_case(self, env, rng, idx, tier):
